@@ -29,6 +29,8 @@ type World struct {
 	preHooks    map[string]func(*Frame, *State)
 	genericPre  []func(*Frame, *State, *Contract)
 	genericPost []func(*Frame, *State, *Contract, *Scope)
+	caseHooks   []func(*Frame, *State, *Contract) []namedCase
+	caseFactHooks []func(*Frame, *State, *Contract, string)
 	stats       struct{ unrolled, cut, feasQueries, pruned int }
 	inlined     map[string]bool
 	assumedSet  map[string]bool
